@@ -59,6 +59,8 @@ let parse_event (line : string) : parsed =
   | "EV" :: "Ret" :: k :: rest ->
     (match parse_op rest with Some o -> Ev (ERet (n (i_ k), o)) | None -> Special line)
   | "EV" :: ["ParentCancel"] -> Ev EParentCancel
+  | "EV" :: ["RunEnter"] -> Ev ERunEnter
+  | "EV" :: ["Entered"] -> Ev EEntered
   | "EV" :: "RunReturn" :: ["nil"] -> Ev (ERunReturn ResNil)
   | "EV" :: "RunReturn" :: ["timeout"] -> Ev (ERunReturn ResTimeout)
   | "EV" :: "RunReturn" :: "err" :: [id] -> Ev (ERunReturn (ResErr (n (i_ id))))
@@ -101,7 +103,7 @@ let () =
       mon "C03.gate" c03_gate; mon "C03.once" c03_once; mon "C03.pending" c03_pending;
       mon "C01.cancel_after" c01_cancel_after;
       mon "C04" c04_holdsb; mon "C04.cause" c04_needs_cause; mon "C04.nil" c04_nil; mon "C04.reports" c04_reports;
-      mon "C05.shape" c05_shape; mon "C05.no_dup" c05_no_dup; mon "C06" c06_holdsb; mon "C06.final" c06_final; mon "C06.sub_entry" c06_sub_entry;
+      mon "C05.shape" c05_shape; mon "C05.no_dup" c05_no_dup; mon "C05.lower" c05_lower; mon "C06" c06_holdsb; mon "C06.final" c06_final; mon "C06.sub_entry" c06_sub_entry;
       mon "C18.final" c18_holdsb; mon "C18.bounded" c18_bounded;
       List.iter (fun l -> match String.split_on_char ' ' l with
           | _ :: k :: _ -> Hashtbl.replace kinds k (1 + try Hashtbl.find kinds k with Not_found -> 0)
@@ -138,7 +140,7 @@ let () =
                   let q = quiescent cfg st in
                   let en = List.filter (fun l -> step0 cfg st l <> None) (taus_nt cfg st @ autos cfg st) in
                   let nm (l : label) = match l with
-                    | LLaunch _ -> "Launch" | LGateDecide _ -> "GateDecide" | LGateErr _ -> "GateErr" | LGateCtx _ -> "GateCtx"
+                    | LRunEntered -> "RunEntered" | LLaunch _ -> "Launch" | LGateDecide _ -> "GateDecide" | LGateErr _ -> "GateErr" | LGateCtx _ -> "GateCtx"
                     | LReapErr -> "ReapErr" | LReapCtx -> "ReapCtx" | LReapSig -> "ReapSig" | LMainShutdown -> "MainShutdown"
                     | LErrSend _ -> "ErrSend" | LSdCancel -> "SdCancel" | LSdWgDone -> "SdWgDone" | LRmAccept _ -> "RmAccept"
                     | LRmCtx -> "RmCtx" | LRmExit -> "RmExit" | LSdmExit -> "SdmExit" | LStmExit -> "StmExit"
